@@ -1716,3 +1716,117 @@ def views_alignment(tier='quick'):
                 if len(fails) >= 4:
                     return cases, fails
     return cases, fails
+
+
+# ------------------------------------------------------------------ random long access histories over the caches (C10, C11)
+def cache_random_histories(tier='quick', kind='memory'):
+    """Random long histories (10..14 steps; 150 / 1500 of them, seeded by VERIF_SEED) over a 5-example cache whose upstream
+    returns a freshly different mutable value per evaluation: accesses by index of either sign, key, iteration (full and
+    aborted), items, slices, index lists, frozen and plain copies, through a single-thread prefetch, in-place mutation of what
+    the last access handed out -- and for the disk cache: release and reopen (reuse=True) in the middle.  Every value ever
+    returned for an example equals the FIRST one returned for it, and the upstream runs at most once per example."""
+    import copy as _copy
+    import gc
+    import random
+    import warnings
+    import lazy_dataset
+    warnings.simplefilter('ignore')
+    os.environ.setdefault('OMP_NUM_THREADS', '1')
+    os.environ.setdefault('MKL_NUM_THREADS', '1')
+    seed = int(os.environ.get('VERIF_SEED', '0') or 0)
+    master = random.Random(31000 + seed + (0 if kind == 'memory' else 7))
+    N = 150 if tier == 'quick' else 1500
+    n = 5
+    keys = ['k%d' % i for i in range(n)]
+    fails, cases = [], 0
+    for _ in range(N):
+        cases += 1
+        rnd = random.Random(master.randrange(10 ** 9))
+        calls = {}
+        cnt = [0]
+
+        def f(x):
+            calls[x] = calls.get(x, 0) + 1
+            cnt[0] += 1
+            return {'x': x, 'fresh': [cnt[0]], 'nested': ({'l': [x]}, x)}
+        src = lazy_dataset.new(dict(zip(keys, range(n)))).map(f)
+        d = None
+        if kind == 'memory':
+            ds = src.cache()
+        else:
+            d = _scratch_dir() + '/h%d' % cases
+            ds = src.diskcache(d, reuse=False, clear=False)
+        first = {}
+        hist = []
+        last = []
+        bad = None
+        for step in range(rnd.randrange(10, 15)):
+            op = rnd.choice(['idx', 'neg', 'key', 'iter', 'iter-abort', 'items', 'slice', 'list', 'copy-idx', 'frozen-iter', 'prefetch', 'mutate']
+                            + (['reopen'] if kind == 'disk' else []))
+            i = rnd.randrange(n)
+            got = []
+            try:
+                if op == 'idx':
+                    got = [ds[i]]
+                elif op == 'neg':
+                    got = [ds[i - n]]
+                elif op == 'key':
+                    got = [ds[keys[i]]]
+                elif op == 'iter':
+                    got = list(ds)
+                elif op == 'iter-abort':
+                    it = iter(ds)
+                    got = [next(it) for _ in range(i)]
+                    del it
+                elif op == 'items':
+                    got = [v for _, v in ds.items()]
+                elif op == 'slice':
+                    got = list(ds[i:])
+                elif op == 'list':
+                    got = list(ds[[i, (i + 2) % n, i]])
+                elif op == 'copy-idx':
+                    got = [ds.copy()[i]]
+                elif op == 'frozen-iter':
+                    got = list(ds.copy(freeze=True))
+                elif op == 'prefetch':
+                    got = list(ds.prefetch(1, 2))
+                elif op == 'mutate':
+                    for v in last:
+                        v['fresh'].append('M')
+                        v['nested'][0]['l'].append('M')
+                        v['added'] = 1
+                elif op == 'reopen':
+                    del ds
+                    last = []
+                    gc.collect()
+                    ds = src.diskcache(d, reuse=True, clear=False)
+            except Exception as e:      # noqa
+                bad = ('history runs', '%s: %s' % (type(e).__name__, str(e)[:100]), 'no exception')
+                hist.append((op, i))
+                break
+            hist.append((op, i))
+            for v in got:
+                x = v.get('x') if isinstance(v, dict) else None
+                if x not in first:
+                    first[x] = _copy.deepcopy(v)
+                elif v != first[x]:
+                    bad = ('returns-the-first-computed-value', repr(v), repr(first[x]))
+                    break
+            if bad:
+                break
+            if op != 'mutate' and got:
+                last = got
+            if any(c > 1 for c in calls.values()):
+                bad = ('computes-each-example-at-most-once', repr(calls), 'all counts <= 1')
+                break
+        if bad:
+            _fail(fails, '%s cache, history %r' % (kind, hist), bad[0], bad[1], bad[2])
+            if len(fails) >= 3:
+                break
+        ds = None
+        gc.collect()
+    return cases, fails
+
+
+def cache_random_histories_disk(tier='quick'):
+    return cache_random_histories(tier, 'disk')
